@@ -827,6 +827,10 @@ impl Exec {
                         o.fail_key("C06", &k, format!("the session was fully started but recovery returned {}", res));
                     }
                 }
+                // C13: recovery returns a session whenever the latest start succeeded and was neither completed nor cancelled
+                if self.started_ok && res != "Some" && !self.crashed && !self.faulted && !self.crafted && !armed && !(self.in_variant && self.variant_prop == "C06") {
+                    o.fail_key("C13", "live-session-not-recovered", format!("the latest start succeeded and the update was neither completed nor cancelled, but try_recover returned {}", res));
+                }
                 if res != "Some" {
                     self.started_ok = false;
                 }
@@ -904,6 +908,9 @@ impl Exec {
                 };
                 let ops = ops_str(&self.f, self.slot);
                 self.check_ops("status mark", false, o);
+                if matches!(t[2], "aborted" | "complete") {
+                    self.started_ok = false;
+                }
                 if matches!(r, Ok(Ok(()))) && sl < self.nslots {
                     match (t[2], self.life[sl]) {
                         ("int", Life::CopyPending) => self.life[sl] = Life::AckPending,
